@@ -308,7 +308,9 @@ Definition return_slashed (s : st) (amt : Z) : st * Z :=
                (s_dust s) (s_esc s - amt) (s_burned s) (s_liq s) (add_all (s_stk s) credits), OK)
        end.
 
-Definition execute_vote (fixc : bool) (s : st) : st * Z :=
+(* [fix12]: the fee left for the reporter after the burn is FeeTotal - BurnAmount (repaired in /repo: the fees of later
+   rounds enter both, so it is never negative); as found it was SlashAmount - BurnAmount, negative from the sixth round *)
+Definition execute_vote_gen (fixc fix12 : bool) (s : st) : st * Z :=
   let status := if negb (s_result s =? 0) && (s_end s <? s_now s) then Resolved else s_status s in
   if (s_status s =? Prevote) || (s_status s =? Failed) then (s, ENotFound)      (* no vote record *)
   else if negb (status =? Resolved) then (s, ENotResolved)
@@ -332,7 +334,7 @@ Definition execute_vote (fixc : bool) (s : st) : st * Z :=
         end
       else if is_support (s_result s) then (fin s1 (s_slash s), OK)
       else if is_against (s_result s) then
-        let amt := s_slash s + (s_slash s - s_burn s) in
+        let amt := s_slash s + ((if fix12 then s_feetotal s else s_slash s) - s_burn s) in
         match return_slashed s1 amt with
         | (s2, 0) => (fin s2 (if fixc then s_slash s else amt), OK)
         | (_, e) => (s, e)
@@ -340,9 +342,13 @@ Definition execute_vote (fixc : bool) (s : st) : st * Z :=
       else (s, EOther).
 
 (* abci.CheckClosedDisputesForExecution on the lineage's current record *)
-Definition exec_block (fixc : bool) (s : st) : st * Z :=
+Definition repo_fix_F12 : bool := true.
+Definition execute_vote (fixc : bool) (s : st) : st * Z := execute_vote_gen fixc repo_fix_F12 s.
+
+Definition exec_block_gen (fixc fix12 : bool) (s : st) : st * Z :=
   if negb (s_id s =? 0) && s_pending s && ((s_end s <? s_now s) || (s_status s =? Resolved))
-  then execute_vote fixc s else (s, OK).
+  then execute_vote_gen fixc fix12 s else (s, OK).
+Definition exec_block (fixc : bool) (s : st) : st * Z := exec_block_gen fixc repo_fix_F12 s.
 
 (* ---- refunds ---------------------------------------------------------------------------------------------- *)
 (* RefundDisputeFee: state and the fraction for the dust store *)
